@@ -48,8 +48,9 @@ SHRINK = ['ops', 'later']
 
 def gen(seed, tier):
     r = random.Random(seed)
-    kind = r.choice(('file', 'file', 'file', 'mapping',
-                     'demo:mapping:mapping'))
+    kind = r.choice(('file', 'file', 'file', 'file', 'mapping',
+                     'demo:mapping:mapping', 'demo:file:mapping',
+                     'demo:file:file'))
 
     def ops(n):
         out = []
@@ -67,7 +68,13 @@ def gen(seed, tier):
             else:
                 out.append(['w', [r.randrange(6)]])
         return out
-    return {'kind': kind, 'ops': ops(r.randint(2, 9)),
+    nops = r.randint(2, 9)
+    return {'kind': kind, 'ops': ops(nops),
+            # demo kinds: this many leading operations are committed to
+            # the base storage alone, before it is wrapped (the base then
+            # has a history of its own that historical points fall into)
+            'base_n': r.choice((0, 0, 1, 2, nops // 2, nops))
+            if kind.startswith('demo') else 0,
             'later': ops(r.randint(1, 4)),
             'pack': r.random() < 0.5,
             'hist_pool': r.choice((1, 2, 3)),
@@ -80,12 +87,22 @@ def gen(seed, tier):
 def run(case):
     sim = ctx.activate(ctx.Sim(case['seed'], bufsize=case['bufsize'],
                                clock={'tick': case['tick']}))
-    db = dbh.make_db(sim, case['kind'],
-                     st_opts={'pack_gc': False} if case['kind'] == 'file'
-                     else None,
-                     cache_size=case['cache_size'],
-                     historical_pool_size=case['hist_pool'],
-                     historical_timeout=case['hist_timeout'])
+    db_opts = dict(cache_size=case['cache_size'],
+                   historical_pool_size=case['hist_pool'],
+                   historical_timeout=case['hist_timeout'])
+    base_n = case.get('base_n', 0) if case['kind'].startswith('demo') else 0
+    if base_n:
+        # phase 1: a database on the future base storage alone
+        from ZODB.FileStorage import FileStorage
+        from ZODB.MappingStorage import MappingStorage
+        bk = case['kind'].split(':')[1]
+        base = FileStorage('/sim/Base.fs') if bk == 'file' \
+            else MappingStorage('base')
+        db = dbh.make_db(sim, bk, storage=base, **db_opts)
+    else:
+        db = dbh.make_db(sim, case['kind'],
+                         st_opts={'pack_gc': False}
+                         if case['kind'] == 'file' else None, **db_opts)
     st = db.storage
     log = Log()
     viol = []
@@ -105,7 +122,7 @@ def run(case):
         return counter[0]
 
     def adopt():
-        if case['kind'].startswith('demo'):
+        if hasattr(st, 'changes'):
             n = 0
             if not log.txns:
                 n += dbh.adopt(log, st.base)
@@ -153,6 +170,30 @@ def run(case):
             if n.startswith('c') and c._p_oid is not None:
                 names[n] = c._p_oid
 
+    def wrap_base():
+        """phase 2: the base is closed, reopened and wrapped."""
+        from ZODB.DemoStorage import DemoStorage
+        from ZODB.FileStorage import FileStorage
+        from ZODB.MappingStorage import MappingStorage
+        A.abort()
+        A.close()
+        _, bk, ck = case['kind'].split(':')
+        if bk == 'file':
+            db.close()
+            b = FileStorage('/sim/Base.fs', read_only=True)
+        else:
+            b = st          # (a MappingStorage lives in memory only)
+            db.close()
+            b._opened = True
+        c = FileStorage('/sim/Changes.fs') if ck == 'file' \
+            else MappingStorage('changes')
+        st2 = DemoStorage(base=b, changes=c)
+        db2 = dbh.make_db(sim, case['kind'], storage=st2, **db_opts)
+        A2 = dbh.Client(db2, 'A')
+        A2.open()
+        stats['base_with_history'] = 1
+        return st2, db2, A2
+
     def expected(bound):
         """{name: token} of the root's cells in the state before `bound`,
         or None if the root does not exist yet."""
@@ -189,8 +230,12 @@ def run(case):
         A.root()['c0'] = objs.Cell(tok())
         A.commit()
         adopt()
-        for op in case['ops']:
+        for i, op in enumerate(case['ops']):
+            if base_n and i == min(base_n, len(case['ops'])):
+                st, db, A = wrap_base()
             live(op)
+        if base_n and hasattr(st, 'changes') is False:
+            st, db, A = wrap_base()
         tids = list(log.tids())
         last_pack_stop = b'\0' * 8
         # candidate points
